@@ -244,11 +244,30 @@ def MsgRTP (S : Schema) (cs : KeyCase) (c : Nat) (sl : List Val) (cur : List (Op
     fromPyKeys S c (freshOn S c) (kvs.map (·.1)) (kvs.map (·.2))
       = .ok { slots := jrtSlots S [] cs (fieldsOf S c) cur 0 sl, onWire := true, unknown := [], cur := cur }
 
+/-- a dict written by `to_pydict` has as many keys as values (the representation keeps them in two lists) -/
+def objLen (p : PVal) : Prop := ∀ ks ps, p = JVal.obj ks ps → ks.length = ps.length
+
+theorem objLen_rawJ_leaf (v : Val) (hl : isLeafVal v = true) : objLen (rawJ v) := by
+  intro ks ps h
+  cases v <;> first | (simp [isLeafVal] at hl; done) | (simp [rawJ] at h)
+
+theorem objLen_arr (xs : List PVal) : objLen (.arr xs) := by intro ks ps h; cases h
+theorem objLen_raw (v : Val) : objLen (.raw v) := by intro ks ps h; cases h
+theorem objLen_mkObj (kvs : List (JKey × PVal)) : objLen (mkObj kvs) := by
+  intro ks ps h
+  unfold mkObj at h
+  injection h with h1 h2
+  rw [← h1, ← h2]; simp
+
+theorem rawJList_length : ∀ xs : List Val, (rawJList xs).length = xs.length
+  | [] => by rw [rawJList]; rfl
+  | x :: xs => by rw [rawJList]; simp [rawJList_length xs]
+
 /-- the per-slot statement -/
 def SlotRTP (S : Schema) (cs : KeyCase) (fs : List FieldD) (idx : Nat) (f : FieldD) (hid sel : Bool) (v : Val) : Prop :=
   (toDictSlot S [] cs false f hid sel v = Option.none → toPyDictSlot S cs false f hid sel v = .ok Option.none) ∧
   (∀ j, toDictSlot S [] cs false f hid sel v = some j →
-    ∃ p, toPyDictSlot S cs false f hid sel v = .ok (some p) ∧
+    ∃ p, toPyDictSlot S cs false f hid sel v = .ok (some p) ∧ objLen p ∧
       ∀ st : MState, fs[idx]? = some f → st.slots.getD idx .ph = freshVal f →
         fromPyField S fs st idx f p = .ok (setAttr S fs st idx (jrt S [] cs v)))
 
@@ -349,6 +368,7 @@ theorem slotRTP_mk (S : Schema) (cs : KeyCase) (fs : List FieldD) (idx : Nat) (f
     (c : Bool) (p : PVal)
     (hd : (toDictSlot S [] cs false f hid sel v).isSome = c)
     (hpy : toPyDictSlot S cs false f hid sel v = .ok (if c then some p else Option.none))
+    (hol : objLen p)
     (hdec : c = true → ∀ st : MState, fs[idx]? = some f → st.slots.getD idx .ph = freshVal f →
       fromPyField S fs st idx f p = .ok (setAttr S fs st idx (jrt S [] cs v))) :
     SlotRTP S cs fs idx f hid sel v := by
@@ -360,7 +380,7 @@ theorem slotRTP_mk (S : Schema) (cs : KeyCase) (fs : List FieldD) (idx : Nat) (f
   · intro j hj
     rw [hj] at hd
     have : c = true := by simpa using hd.symm
-    exact ⟨p, by rw [hpy, this]; rfl, hdec this⟩
+    exact ⟨p, by rw [hpy, this]; rfl, hol, hdec this⟩
 
 theorem encScalar_isSome (f : FieldD) (v : Val) (hn : v ≠ .none) : (encScalar [] f false v).isSome = true := by
   unfold encScalar
@@ -452,7 +472,7 @@ theorem rtp_leaf (S : Schema) (cs : KeyCase) (fs : List FieldD) (idx : Nat) (f :
         | msg _ _ _ _ _ => simp [isLeafVal] at hl
         | _ => simp [hm, hw']
       rw [e1, e2]
-      refine ⟨fun hq => ?_, fun j _ => ⟨rawJ v, rfl, fun st hf hs => ?_⟩⟩
+      refine ⟨fun hq => ?_, fun j _ => ⟨rawJ v, rfl, objLen_rawJ_leaf v hl, fun st hf hs => ?_⟩⟩
       · cases hq
       · exact fromPyField_msgleaf S fs st idx f v hf hs hl hn hm hg ho hr (Or.inl hw')
           (by intro xs; unfold defaultOf; rw [hdk]; simp [defaultOfKind])
@@ -471,7 +491,7 @@ theorem rtp_leaf (S : Schema) (cs : KeyCase) (fs : List FieldD) (idx : Nat) (f :
         have hd : defaultOf S f = .ts 0 := by unfold defaultOf; rw [hdk, hk]; rfl
         by_cases hc : (us != 0 || sel) = true
         · simp only [hc, if_true]
-          refine ⟨fun hq => ?_, fun j _ => ⟨.raw (.ts us), rfl, fun st hf hs => ?_⟩⟩
+          refine ⟨fun hq => ?_, fun j _ => ⟨.raw (.ts us), rfl, objLen_raw _, fun st hf hs => ?_⟩⟩
           · cases hq
           · exact fromPyField_msgleaf S fs st idx f (.ts us) hf hs rfl (by simp) hm hg ho hr (Or.inr (Or.inl ⟨0, hd⟩))
               (by intro xs; rw [hd]; simp)
@@ -487,7 +507,7 @@ theorem rtp_leaf (S : Schema) (cs : KeyCase) (fs : List FieldD) (idx : Nat) (f :
         have hd : defaultOf S f = .dur 0 := by unfold defaultOf; rw [hdk, hk]; rfl
         by_cases hc : (us != 0 || sel) = true
         · simp only [hc, if_true]
-          refine ⟨fun hq => ?_, fun j _ => ⟨.raw (.dur us), rfl, fun st hf hs => ?_⟩⟩
+          refine ⟨fun hq => ?_, fun j _ => ⟨.raw (.dur us), rfl, objLen_raw _, fun st hf hs => ?_⟩⟩
           · cases hq
           · exact fromPyField_msgleaf S fs st idx f (.dur us) hf hs rfl (by simp) hm hg ho hr (Or.inr (Or.inr ⟨0, hd⟩))
               (by intro xs; rw [hd]; simp)
@@ -506,7 +526,7 @@ theorem rtp_leaf (S : Schema) (cs : KeyCase) (fs : List FieldD) (idx : Nat) (f :
       cases he : encScalar [] f false v with
       | none => rw [he] at this; cases this
       | some j0 =>
-        refine ⟨fun hq => ?_, fun j _ => ⟨rawJ v, rfl, fun st hf hs => ?_⟩⟩
+        refine ⟨fun hq => ?_, fun j _ => ⟨rawJ v, rfl, objLen_rawJ_leaf v hl, fun st hf hs => ?_⟩⟩
         · cases hq
         · exact fromPyField_scalar S fs st idx f v hl hn hm' hmap'
     · simp only [hc, Bool.false_eq_true, if_false]
@@ -552,6 +572,7 @@ theorem rtp_list_flat (S : Schema) (cs : KeyCase) (fs : List FieldD) (idx : Nat)
     | cons x xs => simp only [List.isEmpty_cons, Bool.not_false, if_true]; (repeat' split) <;> rfl
   · rw [toPyDictSlot]
     simp only [Bool.false_eq_true, if_false, hm, hmap, Bool.or_false, defKind_rep f hr, eqDefault_list]
+  · rw [rawJ_list]; exact objLen_arr _
   · intro _ st hf hst
     rw [hjrt, rawJ_list, fromPyField]
     simp only [hm, hmap, Bool.false_and, Bool.false_eq_true, if_false, unRaw, unRawList_rawJList_leaf xs hl2,
@@ -583,6 +604,14 @@ theorem rtp_dict_flat (S : Schema) (cs : KeyCase) (fs : List FieldD) (idx : Nat)
   · rw [toPyDictSlot]
     simp only [Bool.false_eq_true, if_false, hmap, if_true, Bool.or_false, toPyDictMapVals_raw S cs false vs hnm,
       Except.bind, bind]
+  · intro ks' ps' he
+    injection he with h1 h2
+    have hkl : ks.length = vs.length := by
+      have h0' := h
+      rw [slotOk_dict] at h0'
+      simp only [Bool.and_eq_true, beq_iff_eq] at h0'
+      exact h0'.1.1.2
+    rw [← h1, ← h2]; simp [rawJList_length, hkl]
   · intro _ st hf hst
     rw [hjrt, fromPyField]
     simp only [hm, hmap, hv, Bool.and_false, Bool.false_eq_true, if_false, unRaw, unRawList_rawJList_leaf vs hl2,
@@ -631,6 +660,7 @@ theorem rtp_list_user (S : Schema) (cs : KeyCase) (fs : List FieldD) (idx : Nat)
   · rw [toPyDictSlot]
     simp only [Bool.false_eq_true, if_false, hm, if_true, hw, Option.isSome_none, hr, hitems, Except.bind, bind,
       Bool.or_false, hemp]
+  · exact objLen_arr _
   · intro _ st hf hst
     have hd : defaultOf S f = .list [] := by unfold defaultOf; rw [defKind_rep f hr]; rfl
     rw [jrt_list, fromPyField]
@@ -642,7 +672,7 @@ theorem rtp_list_user (S : Schema) (cs : KeyCase) (fs : List FieldD) (idx : Nat)
 theorem rtp_dict_user (S : Schema) (cs : KeyCase) (fs : List FieldD) (idx : Nat) (f : FieldD) (hid sel : Bool) (ks vs : List Val)
     (c : Nat) (hp : FP f) (hs : HS f hid sel) (hv : (f.mapV == PType.message) = true) (hk : f.mapVKind = .user c)
     (h : slotOk' S f hid sel (.dict ks vs) = true) (hkeys : (ks.map keyJ).Nodup) (items : List PVal)
-    (hitems : toPyDictMapVals S cs false vs = .ok items)
+    (hitems : toPyDictMapVals S cs false vs = .ok items) (hil : items.length = vs.length)
     (hdec : fromPyItems S c items = .ok (jrtList S [] cs vs))
     (hjl : (jrtList S [] cs vs).length = vs.length) : SlotRTP S cs fs idx f hid sel (.dict ks vs) := by
   have h0 := h
@@ -663,6 +693,9 @@ theorem rtp_dict_user (S : Schema) (cs : KeyCase) (fs : List FieldD) (idx : Nat)
     split <;> simp_all
   · rw [toPyDictSlot]
     simp only [Bool.false_eq_true, if_false, hmap, if_true, Bool.or_false, hitems, Except.bind, bind]
+  · intro ks' ps' he
+    injection he with h1 h2
+    rw [← h1, ← h2]; simp [hil, hkl]
   · intro _ st hf hst
     have hd : defaultOf S f = .dict [] [] := by unfold defaultOf; rw [defKind_map f hr hmap]; rfl
     have hins := dictInsertAll_new ks (jrtList S [] cs vs) [] [] rfl (by rw [hjl, hkl]) (by intro k _ k0 hk0; cases hk0)
@@ -700,6 +733,7 @@ theorem rtp_msg_slot (S : Schema) (cs : KeyCase) (fs : List FieldD) (idx : Nat) 
     simp only [Bool.false_eq_true, if_false, hm, hw, hr, Option.isNone_none, Bool.not_false, Bool.and_self, if_true,
       Bool.or_false, hkvs, Except.bind, bind]
     cases ow <;> (split <;> simp_all)
+  · exact objLen_mkObj kvs
   · intro _ st hf hst
     have hd : defaultOf S f = fresh S c := by unfold defaultOf; rw [hdk]; rfl
     rw [jrt_msg, mkObj, fromPyField]
@@ -747,7 +781,7 @@ theorem keys_loop (S : Schema) (cs : KeyCase) (c : Nat) (cur : List (Option Nat)
         refine ⟨kvs, ?_, hk2⟩
         rw [h0.1 hs, hk1]; rfl
       | some j =>
-        obtain ⟨p, hp1, hp2⟩ := h0.2 j hs
+        obtain ⟨p, hp1, _, hp2⟩ := h0.2 j hs
         have hdec := hp2 st hf (hfr idx f (Nat.le_refl _) hf)
         obtain ⟨kvs, hk1, hk2⟩ := keys_loop S cs c cur hn hopt vs (idx + 1)
           (setAttr S (fieldsOf S c) st idx (jrt S [] cs v)) (freshAbove_setAttr S _ idx st _ hopt hfr) hrt'
@@ -845,7 +879,7 @@ theorem rtp_slot (S : Schema) (cs : KeyCase) (hS : SchemaOk S [] cs) (hP : ∀ c
       obtain ⟨_, _, _, _, _, _, hit⟩ := list_common S f hid sel xs hp.fj hs h
       rw [selOk_list] at hsel
       rw [dictKeysOk_list] at hdk
-      obtain ⟨items, h1, _, h3⟩ := rtp_msgs S cs hS hP c xs (itemsOk_user S f c xs hm hw hk hit) hsel hdk
+      obtain ⟨items, h1, _, h3, _⟩ := rtp_msgs S cs hS hP c xs (itemsOk_user S f c xs hm hw hk hit) hsel hdk
       exact rtp_list_user S cs fs idx f hid sel xs c hp hs hm hk h items h1 h3
     · exact rtp_list_flat S cs fs idx f hid sel xs hp hs hu h
   | .dict ks vs, h, hsel, hdk => by
@@ -855,8 +889,8 @@ theorem rtp_slot (S : Schema) (cs : KeyCase) (hS : SchemaOk S [] cs) (hP : ∀ c
     · obtain ⟨_, _, hty, _, hvs⟩ := dict_common S f hid sel ks vs hp.fj hs h
       obtain ⟨c, hk⟩ := hp.fj.map_vk (by simp [hty]) hv
       rw [selOk_dict] at hsel
-      obtain ⟨items, _, h2, h3⟩ := rtp_msgs S cs hS hP c vs (mapValsOk_user S f c vs hv hk hvs) hsel hdk.2
-      exact rtp_dict_user S cs fs idx f hid sel ks vs c hp hs hv hk h hdk.1 items h2 h3 (jrtList_length S [] cs vs)
+      obtain ⟨items, _, h2, h3, h4⟩ := rtp_msgs S cs hS hP c vs (mapValsOk_user S f c vs hv hk hvs) hsel hdk.2
+      exact rtp_dict_user S cs fs idx f hid sel ks vs c hp hs hv hk h hdk.1 items h2 h4 h3 (jrtList_length S [] cs vs)
     · exact rtp_dict_flat S cs fs idx f hid sel ks vs hp hs (by simpa using hv) h
   | .msg c sl ow unk cur, h, hsel, hdk => by
     have hbody : bodyOk S c sl unk cur = true := by
@@ -881,9 +915,9 @@ theorem rtp_msgs (S : Schema) (cs : KeyCase) (hS : SchemaOk S [] cs) (hP : ∀ c
     ∀ (xs : List Val), (∀ x ∈ xs, ∃ sl ow unk cur, x = Val.msg c sl ow unk cur ∧ bodyOk S c sl unk cur = true) →
       selOkList S xs = true → dictKeysOkL xs = true →
       ∃ items, toPyDictList S cs false xs = .ok items ∧ toPyDictMapVals S cs false xs = .ok items ∧
-        fromPyItems S c items = .ok (jrtList S [] cs xs)
+        fromPyItems S c items = .ok (jrtList S [] cs xs) ∧ items.length = xs.length
   | [], _, _, _ => by
-    refine ⟨[], by rw [toPyDictList], by rw [toPyDictMapVals], ?_⟩
+    refine ⟨[], by rw [toPyDictList], by rw [toPyDictMapVals], ?_, rfl⟩
     rw [jrtList, fromPyItems]
   | .msg c' sl ow unk cur :: xs, h, hsel, hdk => by
     obtain ⟨sl0, ow0, unk0, cur0, e, hbody0⟩ := h _ (List.mem_cons_self)
@@ -900,9 +934,9 @@ theorem rtp_msgs (S : Schema) (cs : KeyCase) (hS : SchemaOk S [] cs) (hP : ∀ c
     obtain ⟨kvs, a1, a2⟩ := msgRTP_of_slots S cs hS c' sl unk cur hbody hsel.1.1 (fun k v f hv hf => by
         have := hrt2 k v f hv (by simpa using hf)
         simpa using this) hrtp
-    obtain ⟨items, b1, b2, b3⟩ := rtp_msgs S cs hS hP c xs (fun x hx => h x (List.mem_cons_of_mem _ hx)) hsel.2 hdk.2
+    obtain ⟨items, b1, b2, b3, b4⟩ := rtp_msgs S cs hS hP c xs (fun x hx => h x (List.mem_cons_of_mem _ hx)) hsel.2 hdk.2
     subst hunk
-    refine ⟨mkObj kvs :: items, ?_, ?_, ?_⟩
+    refine ⟨mkObj kvs :: items, ?_, ?_, ?_, by simp [b4]⟩
     · rw [toPyDictList, a1, b1]; rfl
     · rw [toPyDictMapVals, a1, b2]; rfl
     · rw [jrtList, jrt_msg, mkObj, fromPyItems]
